@@ -142,8 +142,30 @@ def check_pb(case, ps=None):
     if not sup:
         # produced although the construction is not defined for this size: must still be a valid design
         pass
+    _pb_structure(rows, boxes, n, runs, "")
+    extra = case.get("extra") or 0
+    if extra and ps is None:
+        # the design function itself accepts level lists longer than two and documents that "the end point is assigned
+        # to the high level": the design must still use only the first and the last level of every factor
+        import artap.doe as doe
+        levels = {}
+        for j, (lb, ub) in enumerate(boxes):
+            levels["f%d" % j] = [lb] + [lb + (ub - lb) * (i + 1) / (extra + 1.0) for i in range(extra)] + [ub]
+        with guard("plackett-burman"):
+            rows2 = [[py(x) for x in r] for r in _rows(doe.build_plackett_burman(levels))]
+        _pb_structure(rows2, boxes, n, runs, " (level lists of %d values)" % (extra + 2))
+    doubled = runs not in (4, 8, 12, 20) and runs >= 16
+    return {"nt": n >= 3 and (doubled or n >= 8), "classes": ["runs%d" % runs, "kronecker" if doubled else "base"] + (
+        ["long-level-lists"] if extra and ps is None else [])}
+
+
+def _rows(df):
+    return df.values.tolist() if hasattr(df, "values") else [list(r) for r in df]
+
+
+def _pb_structure(rows, boxes, n, runs, note):
     if len(rows) != runs:
-        raise Violation("plackett-burman", "run-count", "n=%d: %d runs, expected %d" % (n, len(rows), runs))
+        raise Violation("plackett-burman", "run-count", "n=%d: %d runs, expected %d%s" % (n, len(rows), runs, note))
     cols = []
     for j in range(n):
         col = []
@@ -157,18 +179,18 @@ def check_pb(case, ps=None):
             elif x == ub:
                 col.append(1)
             else:
-                raise Violation("plackett-burman", "not-two-level", "n=%d: value %r is neither bound of %r" % (n, x, (lb, ub)))
+                raise Violation("plackett-burman", "not-two-level", "n=%d: value %r is neither bound of %r%s" % (
+                    n, x, (lb, ub), note))
         cols.append(col)
     for j, c in enumerate(cols):
         if sum(c) != 0:
-            raise Violation("plackett-burman", "unbalanced-column", "n=%d column %d has sum %d" % (n, j, sum(c)))
+            raise Violation("plackett-burman", "unbalanced-column", "n=%d column %d has sum %d%s" % (n, j, sum(c), note))
     for a in range(n):
         for b in range(a + 1, n):
             ip = sum(x * y for x, y in zip(cols[a], cols[b]))
             if ip != 0:
-                raise Violation("plackett-burman", "not-orthogonal", "n=%d columns %d,%d inner product %d" % (n, a, b, ip))
-    doubled = runs not in (4, 8, 12, 20) and runs >= 16
-    return {"nt": n >= 3 and (doubled or n >= 8), "classes": ["runs%d" % runs, "kronecker" if doubled else "base"]}
+                raise Violation("plackett-burman", "not-orthogonal", "n=%d columns %d,%d inner product %d%s" % (
+                    n, a, b, ip, note))
 
 
 @st.composite
@@ -179,7 +201,7 @@ def pb_cases(draw):
         b = [lo, lo + draw(st.sampled_from([1, 2, 3, 10, 10 ** 17]))]
     else:
         b = draw(box12())
-    return {"n": n, "box": b, "names": draw(st.sampled_from(NAME_STYLES))}
+    return {"n": n, "box": b, "names": draw(st.sampled_from(NAME_STYLES)), "extra": draw(st.sampled_from([0, 0, 1, 2, 5]))}
 
 
 # ---------------------------------------------------------------- Box-Behnken
